@@ -576,7 +576,9 @@ def explore_c01(ctx, res, replay_ops=None):
     res.rule = ("histories over the real gin router + processor + rating/account servers (Diameter/TLS, in-memory store): "
                 "1-2 subscribers x 2 rating groups x 1-2 sessions per scenario, unit costs 1,2,3,7,1000, balances 0..100000, "
                 "requested 0..250, used around the last grant (incl. over-reporting), FINAL and other triggers, releases, "
-                "external credits + recharge notifications; judged: every operation inside the quantifier (opOKb, evaluated "
+                "external credits + recharge notifications; plus (mode events) one-time events with and without usage before / between / during / after the "
+                "sessions of a subscriber - incl. after a release without FINAL that leaves a reservation behind -, creates refused by OpenCDR; "
+                "judged: every operation inside the quantifier (opOKb, evaluated "
                 "by the Lean driver); non-trivial = operation that moves money; distinct = distinct operation lines")
 
 
@@ -850,9 +852,13 @@ def explore_c12(ctx, res, replay_ops=None):
     res.rule = ("chf histories in 'api' mode: 25% of updates/releases name an unknown, mistyped, foreign or stale (released) "
                 "reference or an unknown subscriber; recharges with well-formed, malformed and unknown path parameters; "
                 "oracle on the implementation's trace: status/Location/echo/timestamp per request, byte-identical state "
-                "dump across every 4xx, exactly one notification per accepted recharge; non-trivial = rejected request or "
+                "dump across every 4xx (empty subscriber contexts apart), exactly one notification per accepted recharge; plus one-time events and creates "
+                "refused by OpenCDR (mode events), consumer names with characters that are escaped in a URI and references whose percent-decoding "
+                "would be a live reference (mode escapes); non-trivial = rejected request or "
                 "accepted recharge; plus batches of 3-5 updates and the release of one session in flight together against a slow account "
-                "store: some serial order replayed through the Lean model must give every response (an update behind the release: 404) and the final state")
+                "store (half of the batches repeat the release): some serial order replayed through the Lean model must give every response (an update or "
+                "a second release behind the release: 404) and the final state; plus loops of requests naming unknown references next to creates, updates "
+                "and releases of the same subscriber on the race-detector build")
 
 
 import re  # noqa: E402
@@ -943,7 +949,10 @@ def explore_c10(ctx, res, replay_ops=None):
                 "consumer names ending in digits / empty / containing '-' (a1, a, '', 10, -1, smf-0), 2-4 sessions per subscriber, "
                 "interleaved updates and releases; oracle: every returned reference differs from all live ones, and usage sent "
                 "to a live reference lands in a record carrying that reference; plus 4-8 creates of one never-seen SUPI in flight together, "
-                "every acknowledged reference then updated and released; non-trivial/distinct = returned references")
+                "every acknowledged reference then updated and released; whatever its answer, a request addressed to a reference leaves the records of all "
+                "other sessions as they were; one-time events (no reference), creates refused by OpenCDR, percent-escaped names; loops of refused creates "
+                "(other / same subscriber) next to pairs of sessions via one consumer: no reference of an unreleased session handed out again; "
+                "non-trivial/distinct = returned references")
 
 
 PROPS["C10"] = dict(lean=["ChfVerif.Props.C10"], explore=explore_c10,   # gen: see below gen_table
@@ -1122,7 +1131,8 @@ def explore_c02(ctx, res, replay_ops=None):
                 "carries a unique local sequence number as tracer): after every operation the containers found in the records "
                 "of each session (in Records order) must equal the containers reported for that session so far; plus "
                 "TimeStampToCdr on civil times x zone offsets (-14h..+14h in minutes, incl. +05:30/+05:45/-03:30) read back by "
-                "the Lean TS 32.298 reader; non-trivial = request carrying containers")
+                "the Lean TS 32.298 reader; one-time events around the sessions (mode events); cause for closing 0 on the record of every released session, "
+                "1 on the record cut by a partial closure; non-trivial = request carrying containers")
 
 
 PROPS["C02"] = dict(lean=["ChfVerif.Props.C02"], explore=explore_c02,
@@ -1784,7 +1794,10 @@ def explore_c11(ctx, res, replay_ops=None):
                 "same subscriber under a 4 s deadline. Oracle: status 2xx/3xx/4xx (never 5xx, never a hang), follow-ups answered in time "
                 "and not 5xx; recharge notifications to a consumer that answers after 5 s / sends an update before it answers (the update must be "
                 "answered within 4 s); sessions grown across the 65535-octet record limit, the crossing update also being the first online "
-                "report with a trigger (never 5xx). non-trivial = request answered 4xx")
+                "report with a trigger (never 5xx); every history of up to 3 (thorough 4) requests over {create, refused create, one-time event, update, "
+                "release, unknown reference, recharge} + random longer ones, each followed by create/update/release of the subscriber under 4 s; "
+                "loops of unknown-reference requests next to creates/updates/releases of one subscriber on the race-detector build. "
+                "non-trivial = request answered 4xx")
 
 
 PROPS["C11"] = dict(lean=["ChfVerif.Props.C11"], explore=explore_c11, race=True, gen=[gen_table("locksites", "LockSites.lean")],
@@ -1972,7 +1985,9 @@ def explore_c09(ctx, res, replay_ops=None):
                 "of the same new SUPI; creates and updates of different subscribers. All must return within 20 s; no race report, no fatal error; "
                 "for k <= 5 every permutation of the batch is replayed through the Lean charging model and one of them must reproduce every "
                 "response and the quiescent state exactly (record numbering compared up to order); every session acknowledged in the batch "
-                "is then updated and released; for larger batches: exactly-once recording of the accepted containers" % procs)
+                "is then updated and released; for larger batches: exactly-once recording of the accepted containers; batches with one-time events; loops "
+                "(hammer) of one-time events / refused creates / unknown-reference requests next to creates, updates and releases of one subscriber; "
+                "CDR transfer to the billing domain enabled (FTP responder up / dropped / unreachable), one request at a time" % procs)
 
 
 PROPS["C09"] = dict(lean=["ChfVerif.Props.C09"], explore=explore_c09, race=True, gen=[gen_table("locksites", "LockSites.lean")],
